@@ -347,6 +347,12 @@ func runSession(w *world, sp Spec, dir string) (tr Trace) {
 		bindAll(sp.PanicSeq, "verif-panic")
 	}
 	for _, b := range sp.Binds {
+		if b.Macro {
+			for _, km := range keymaps {
+				rl.Config.Bind(km, inputrc.Unescape(b.Seq), b.Cmd, true)
+			}
+			continue
+		}
 		bindAll(b.Seq, b.Cmd)
 	}
 	if sp.ByName {
